@@ -271,3 +271,42 @@ def h_compute_outlier_prob(I, fi):
     else:
         P.check("compute_outlier_prob[p>0]", z3.And(P.z(I.to_num(out[0])) == P.z(n * alg.slog(p)), P.z(I.to_num(out[1])) == P.z(n * alg.slog(1 - p))),
                 "(size log p, size log(1-p))", kind="post")
+
+
+# ----------------------------------------------------------------------------------------------------------- per-outlier marginal (data/base.py)
+
+
+def h_datapoint_init(I, fi, sub_fi):
+    """phyclone.data.base.DataPoint.__init__: outlier_marginal_prob = sum_d log( (1/G) sum_k (1/G) sum_{j<=k} exp value[d,j] ): the marginal
+    likelihood of the point as an outlier under the uniform grid prior (a singleton clone with a virtual child slot), fields stored as given."""
+    from pyvc.builtins_model import Arr2, SymSeq, seq_sum
+    P = I.P
+    D, G = alg.sym("D", "Int"), alg.sym("G", "Int")
+    P.assume(z3.And(P.z(D) >= 1, P.z(G) >= 1))
+    value = Arr2.symbolic("val", D, G)
+    asked = []
+
+    def logsumexp(I_, x, axis=None):
+        asked.append(axis)
+        if not isinstance(x, Arr2):
+            raise Unsupported("logsumexp of %s" % type(x).__name__)
+        k = alg.fresh_bound()
+        return SymSeq("logsumexp(%s)" % x.name, x.D, lambda d: alg.slog(alg.bigsum("", x.G, alg.sexp(I_.to_num(x.at(I_, d, k))), bound=k)))
+
+    I.registry.globals_override["log_sum_exp"] = logsumexp
+    dp = Obj(fi.cls)
+    name_given = P.decide(2) == 1
+    op, opn = alg.sym("op"), alg.sym("opn")
+    I.call_function(fi, [dp, 7, value], {"name": ("nm",) if name_given else None, "outlier_prob": op, "outlier_prob_not": opn}, force_inline=True)
+    dsl.cover(I, "datapoint.named" if name_given else "datapoint.unnamed")
+    f = dp.fields
+    P.check("datapoint.fields", f.get("idx") == 7 and f.get("value") is value and f.get("outlier_prob") is op and f.get("outlier_prob_not") is opn and (f.get("name") == ("nm",) if name_given else f.get("name") == 7),
+            "idx, grid and outlier probabilities are stored as given; the name defaults to the idx", kind="post")
+    P.check("datapoint.grid-untouched", value.writes == 0, "the likelihood grid is not modified", kind="post")
+    P.check("datapoint.row-wise", asked == [1] or (len(asked) == 1 and isinstance(asked[0], Num) and (asked[0] - 1).is_zero()), "the grid values are combined within each sample (axis 1), the samples are then multiplied", kind="post")
+    d, k, j = alg.fresh_bound(), alg.fresh_bound(), alg.fresh_bound()
+    inner = alg.bigsum("", k + 1, alg.sexp(alg.raw_app("val", d, j)), bound=j)
+    spec = alg.bigsum("", D, alg.slog(alg.bigsum("", G, inner, bound=k)) - 2 * alg.slog(G), bound=d)
+    got = I.to_num(f.get("outlier_marginal_prob"))
+    P.check("datapoint.outlier-marginal", bool(alg.is_identically_zero(got - spec)) or P.z(got) == P.z(spec),
+            "outlier_marginal_prob = sum over samples of log( G^-2 * sum_k sum_{j<=k} exp value[d, j] )", kind="post")
